@@ -172,7 +172,8 @@ def mapping_job(rng, area, failure, tag, tmp_dir=True, obsm=False):
         if failure.endswith('_slowsibling'):
             # the siblings are still at work when the failure is noticed
             fault['save_delay'] = 0.6
-    real_failure = failure if failure not in ('unwritable_output',) \
+    real_failure = failure if failure not in ('unwritable_output',
+                                              'unwritable_hdf5') \
         and fault is None else 'success'
     if fault is not None:
         real_failure = 'worker_raise'     # build_case: >= 5 cells, no defect
@@ -191,6 +192,11 @@ def mapping_job(rng, area, failure, tag, tmp_dir=True, obsm=False):
     if failure == 'unwritable_output':
         cfg['extended_result_path'] = str(out / 'no_such_dir' /
                                           (tag + '_out.json'))
+    if failure == 'unwritable_hdf5':
+        # not validated up front: the run itself succeeds and the epilogue
+        # of run_mapping (after the clean-up) raises
+        cfg['hdf5_result_path'] = str(out / 'no_such_dir' /
+                                      (tag + '_out.h5'))
     inputs = [cfg['query_path'], cfg['precomputed_stats']['path'],
               cfg['query_markers']['serialized_lookup']]
     outputs = [cfg['extended_result_path'], cfg['hdf5_result_path'],
@@ -623,6 +629,31 @@ def check_one(ctx, area, spec, all_specs, history, before, dig0, after,
                               'directory it did not create: %s'
                               % (spec['stage'], history, gone[:4]),
                               dict(detail, gone=gone, job=spec['job']))
+    else:
+        # a stage that FAILED may leave its own temporaries behind (only the
+        # mapping run promises otherwise) -- but whatever was in the scratch
+        # directory before the call and is not an output must still be there,
+        # untouched: in particular the directory itself
+        for sd in spec['scratch']:
+            gone = sorted(p for p in before if under(p, sd)
+                          and p not in after and p not in all_outputs)
+            touched = sorted(p for p in before if under(p, sd)
+                             and p in after and p not in all_outputs
+                             and dig0.get(p) != dig1.get(p))
+            if gone:
+                ctx.violation(sigbase + '/scratch/removed-foreign',
+                              'failed %s run (%s, %s) removed entries of the '
+                              'scratch directory it did not create: %s'
+                              % (spec['stage'], history, spec['failure'],
+                                 gone[:4]),
+                              dict(detail, gone=gone, job=spec['job']))
+            if touched:
+                ctx.violation(sigbase + '/scratch/modified-foreign',
+                              'failed %s run (%s, %s) modified files of the '
+                              'scratch directory it did not create: %s'
+                              % (spec['stage'], history, spec['failure'],
+                                 touched[:4]),
+                              dict(detail, touched=touched, job=spec['job']))
     # P3 only the requested outputs appear / change elsewhere
     changed = sorted(p for p in set(before) | set(after)
                      if (before.get(p) != after.get(p)
@@ -798,7 +829,8 @@ MAPPING_FAILURES = ['negative_raw', 'no_marker_overlap',
                     'duplicate_genes', 'worker_raise_before',
                     'worker_exit_before', 'worker_kill_before',
                     'worker_raise_after', 'worker_raise_before_slowsibling',
-                    'worker_kill_before_slowsibling', 'unwritable_output']
+                    'worker_kill_before_slowsibling', 'unwritable_hdf5',
+                    'unwritable_output']
 
 
 def history_mapping(ctx, rng, failure, encoding_hint=None, tmp_dir=True,
@@ -964,6 +996,60 @@ def history_election(ctx, rng, encoding='dense', pair=False):
         compare_with_solo(ctx, specs[0], hist, got[0], solo)
 
 
+SCRATCH_FAIL_MODES = ['file', 'missing', 'enospc', 'enospc2']
+SCRATCH_FAIL_STAGES = ['validate', 'precompute', 'markers', 'election',
+                       'mapping']
+
+
+def history_scratch_failure(ctx, rng, stage, mode):
+    """the scratch space cannot be set up: tmp_dir names a regular file / a
+    path that does not exist, or tempfile.mkdtemp raises ENOSPC (first or
+    second call).  Whatever the stage does then, nothing that existed before
+    the call and is not an output may be removed or modified -- the caller's
+    scratch directory and the foreign files in it survive."""
+    hist = 'stale+scratch-failure-%s' % mode
+    with pipeline.workdir('ctmverif_c19_') as wd:
+        area = Area(wd)
+        plant_stale(rng, area.tmp, k=6)
+        bad_tmp = None
+        if mode == 'file':
+            bad_tmp = area.tmp / 'not_a_directory.txt'
+            bad_tmp.write_text('a regular file passed as tmp_dir')
+        elif mode == 'missing':
+            bad_tmp = area.tmp / 'no_such_dir'
+        if stage == 'validate':
+            spec = validate_job(rng, area, 'v', rng.choice(['csr', 'dense']))
+        elif stage == 'precompute':
+            spec = precompute_job(rng, area, 'p', rng.choice(['csr', 'csc']),
+                                  copy_data_over=rng.random() < 0.5)
+        elif stage == 'markers':
+            p = precompute_job(rng, area, 'p', 'csr')
+            p['tag'] = area.tag()
+            st = fsmon.run_plain(p['job'], area.job, p['tag'],
+                                 tmpdir=area.systmp)
+            if not st['ok']:
+                return
+            spec = markers_job(rng, area, 'm', p['outputs'][0])
+        elif stage == 'election':
+            inp = election_inputs(rng, area, 'e', rng.choice(['dense',
+                                                              'csc']))
+            spec = election_job(rng, area, inp, 'e')
+        else:
+            spec = mapping_job(rng, area, 'csc_query'
+                               if rng.random() < 0.5 else 'success', 'm')
+        job = spec['job']
+        if bad_tmp is not None:
+            if stage == 'mapping':
+                job['config']['tmp_dir'] = str(bad_tmp)
+            else:
+                job['tmp_dir'] = str(bad_tmp)
+        else:
+            job['fail_mkdtemp'] = {'nth': 2 if mode == 'enospc2' else 1}
+        spec['failure'] = 'scratch_%s' % mode
+        spec['expect_ok'] = False
+        run_specs(ctx, area, [spec], hist, traced=False)
+
+
 def history_pair(ctx, rng, n=2):
     """concurrent mapping runs sharing scratch and output directories"""
     hist = 'stale+concurrent-pair'
@@ -1021,6 +1107,11 @@ def run(ctx):
         history_mapping(ctx, rng, fails[0], encoding_hint='csc')
         history_mapping(ctx, rng, 'unwritable_output', traced_all=False,
                         then_success=False)
+        # the error comes from the epilogue of run_mapping (its finally
+        # block), not from the mapping itself
+        history_mapping(ctx, rng, rng.choice(['unwritable_hdf5',
+                                              'corrupt_query']),
+                        traced_all=False, then_success=False)
         # a worker fails while its siblings are still at work: whatever they
         # write after the failed call has returned is looked for as well
         history_mapping(ctx, rng, rng.choice(
@@ -1032,6 +1123,11 @@ def run(ctx):
         history_pair(ctx, rng)
         # CSC: the row iterator transcribes the query to CSR in scratch space
         history_election(ctx, rng, 'csc')
+        # scratch space that cannot be set up
+        history_scratch_failure(ctx, rng, 'validate', 'file')
+        history_scratch_failure(ctx, rng, 'validate', 'enospc')
+        history_scratch_failure(ctx, rng, rng.choice(SCRATCH_FAIL_STAGES[1:]),
+                                rng.choice(SCRATCH_FAIL_MODES))
     else:
         for i, f in enumerate(MAPPING_FAILURES):
             history_mapping(ctx, rng, f,
@@ -1052,6 +1148,9 @@ def run(ctx):
         for i, enc in enumerate(['dense', 'csr', 'csc', 'dense', 'csr',
                                  'dense']):
             history_election(ctx, rng, enc, pair=i >= 3)
+        for stg in SCRATCH_FAIL_STAGES:
+            for mode in SCRATCH_FAIL_MODES:
+                history_scratch_failure(ctx, rng, stg, mode)
     if bad:
         # the clean-up obligation fails on the regenerated skeleton: the
         # histories above are the failing-input search
@@ -1077,7 +1176,10 @@ def replay(ctx, data, from_corpus=False):
         spec = d.get('spec') or (d.get('specs') or [{}])[0]
         stage = spec.get('stage', 'mapping')
         hist = d.get('history', '')
-        if 'election' in hist:
+        if 'scratch-failure' in hist:
+            history_scratch_failure(ctx, rng, stage,
+                                    hist.split('scratch-failure-')[1])
+        elif 'election' in hist:
             history_election(ctx, rng, spec.get('encoding', 'dense')
                              if spec.get('encoding') in ('dense', 'csr',
                                                          'csc')
